@@ -637,6 +637,51 @@ func c20SlotDataCtrlBody(st *c20SlotDataCtrlState) {
 	st.msgs = len(w.node.messages)
 }
 
+// c20BidCache: the block relay's cache of auction results (keyed by slot) over a long run in which vouch proposes
+// often: an auction (mode "auction") or a beacon node's bid request without a preceding auction (mode "request")
+// in every slot.
+type c20BidCacheState struct {
+	mode  string
+	slots int
+	held  int
+	mid   int
+	won   int
+}
+
+func c20BidCacheBody(st *c20BidCacheState) {
+	st.held, st.mid, st.won = 0, 0, 0
+	c09Init()
+	e := &c09Env{cfgKind: "none", given: make([][]c09Given, 1)}
+	strat := c09Strats()[0]
+	util.VerifResetBuilderClients()
+	r := &c09Relay{idx: 0, env: e, value: 10, bldr: 'Y', hdr: 1, defect: "none", perSlot: true}
+	e.relays = append(e.relays, r)
+	util.VerifSetBuilderClient(r.Address(), r)
+	mc.Sleep(int64(time.Duration(c09Slot)*12*time.Second) - mc.Now())
+	ctx, cancel := mcontext.WithCancel(context.Background())
+	defer cancel()
+	v1 := newAccount("W", "v1", 1)
+	accts := &accountsTable{byIndex: map[phase0.ValidatorIndex]*hAccount{1: v1}}
+	svc := c09NewBlockRelay(ctx, e, &strat, "none", accts)
+	for i := 1; i <= st.slots; i++ {
+		slot := c09Slot + phase0.Slot(i)
+		mc.Sleep(int64(time.Duration(slot)*12*time.Second) - mc.Now())
+		if st.mode == "auction" {
+			if res, err := svc.AuctionBlock(ctx, slot, phase0.Hash32{9}, v1.pubkey()); err == nil && res != nil && res.WinningParticipation != nil {
+				st.won++
+			}
+		} else {
+			if b, err := svc.BuilderBid(ctx, slot, phase0.Hash32{9}, v1.pubkey()); err == nil && b != nil {
+				st.won++
+			}
+		}
+		if i == st.slots/2 {
+			st.mid = len(svc.VerifBidCacheKeys())
+		}
+	}
+	st.held = len(svc.VerifBidCacheKeys())
+}
+
 // ---- units --------------------------------------------------------------------------------------
 
 func c20Units(tier string) []hx.Unit {
@@ -817,6 +862,29 @@ func c20Units(tier string) []hx.Unit {
 			} else if len(st.kept) > 101 {
 				v.Violation = fmt.Sprintf("controller and sync committee messenger with verify-sync-committee-inclusion %s: after %d slots, each with its head event, the messenger holds the inclusion data of %d slots (one more per slot)", name, st.slots, len(st.kept))
 				v.Key = "C20/sync/sync-slot-data-never-tidied/verify-" + name
+			}
+			return v
+		}
+		units = append(units, u)
+	}
+	for _, mode := range []string{"auction", "request"} {
+		st := &c20BidCacheState{mode: mode, slots: 300}
+		if tier == "thorough" {
+			st.slots = 1000
+		}
+		u := hx.Unit{Name: "C20/bid-cache/" + mode + "-every-slot", Cfg: mc.Config{Fixed: true, Horizon: int64(6 * time.Hour)}}
+		u.Body = func() { c20BidCacheBody(st) }
+		u.Check = func(r *mc.Result) mc.Verdict {
+			v := mc.Verdict{Outcome: "bid cache " + mode, Nontrivial: st.won > 0,
+				Sample: fmt.Sprintf("block relay, one %s per slot for %d slots: results of %d slots cached half way, of %d at the end", mode, st.slots, st.mid, st.held)}
+			if r.Panic != "" {
+				v.Violation, v.Key = v.Sample+": panic: "+firstLine(r.Panic), "C20/bid-cache/panic/"+panicSite(r.Panic)
+			} else if st.won < st.slots {
+				v.Violation, v.Key = fmt.Sprintf("harness: %d of %d %ss produced a bid", st.won, st.slots, mode), "C20/bid-cache/harness"
+			} else if st.held > st.slots/2 {
+				// a fixed window: whatever its size, an hour (quick) of slots later most of them must be gone
+				v.Violation = fmt.Sprintf("block relay with one %s per slot: after %d slots the results of %d slots are still cached (%d half way): nothing is ever removed", mode, st.slots, st.held, st.mid)
+				v.Key = "C20/bid-cache/never-tidied/" + mode
 			}
 			return v
 		}
